@@ -78,6 +78,17 @@ func runC09(c *Ctx) {
 	}
 	installStalls(c, 2+c.T.Choose(4))
 	tw.Tuns = StartTunnels(c, tw.Plans)
+	// hosts may end their connections themselves while clients are still sending
+	for _, t := range tw.Tuns {
+		for _, h := range t.Hosts {
+			switch c.T.Weighted(6, 1, 1) {
+			case 1:
+				h.CloseAfterScript = true
+			case 2:
+				h.ResetAfter = c.T.Choose(len(h.Script) + 1)
+			}
+		}
+	}
 	RunTunnels(c, tw.Tuns, 60000)
 	moved := 0
 	for _, t := range tw.Tuns {
